@@ -1624,20 +1624,22 @@ impl<'a, R: FileManager> FrontendCtx<'a, R> {
                         );
                     }
 
+                    // follow the key through aliases of aliases; stop at a name that is not resolved
+                    // (yet) and after a bounded number of steps (`type K1 = K2; type K2 = K1`)
                     let mut key = type_args[0].clone();
-                    let mut is_ref = matches!(key.kind, RuntypeKind::Ref(_));
-
-                    while is_ref {
-                        if let RuntypeKind::Ref(r) = &type_args[0].kind {
-                            let map = self
-                                .partial_validators
-                                .get(r)
-                                .and_then(|it| it.as_ref())
-                                .cloned();
-                            if let Some(schema) = map {
+                    let mut hops = 0;
+                    while let RuntypeKind::Ref(r) = &key.kind {
+                        let next = self
+                            .partial_validators
+                            .get(r)
+                            .and_then(|it| it.as_ref())
+                            .cloned();
+                        match next {
+                            Some(schema) if hops < 64 => {
                                 key = schema;
-                                is_ref = matches!(key.kind, RuntypeKind::Ref(_));
+                                hops += 1;
                             }
+                            _ => break,
                         }
                     }
                     let key_clone = key.clone();
